@@ -664,19 +664,29 @@ def lateOk (pre : List Step) (fresh : List String) (mats : List (String × Arg))
   | .mat _ (.single _) _ _ => true
   | _ => false
 
+/-- the steps of a row, each with the mark "inside a loop that changes the tree" (in the second round of such a
+loop every step of its body comes after a change) -/
+def Row.tagged (r : Row) : List (Step × Bool) :=
+  r.segs.flatMap fun sg => match sg with
+    | .line st => st.map fun x => (x, false)
+    | .loop _ _ st => st.map fun x => (x, st.any Step.changes)
+
 /-- (a, second half) atomicity: whatever can refuse comes before the first change of the tree, or repeats a check
-made before it. The first changing step may itself be a raw operation that refuses (`IndexError`). -/
+made before it; in particular a loop must not validate and mutate item by item (non-atomic `extend`) unless
+every check in it was made for the whole argument before. The first changing step may itself be a raw operation
+that refuses (`IndexError`); an allocation does not change what exists. -/
 def atomicOk (r : Row) : Bool :=
-  let all := r.steps
-  let pre := all.takeWhile (fun st => !st.changes)
-  let post := all.dropWhile (fun st => !st.changes)
-  let fresh := all.filterMap fun st => match st with | .alloc d _ => some d | _ => none
-  let mats := all.filterMap fun st => match st with | .mat d a _ _ => some (d, a) | _ => none
+  let all := r.tagged
+  let quiet : Step × Bool → Bool := fun q => !q.2 && (match q.1 with | .alloc _ _ => true | st => !st.changes)
+  let pre := (all.takeWhile quiet).map (·.1)
+  let post := all.dropWhile quiet
+  let fresh := r.steps.filterMap fun st => match st with | .alloc d _ => some d | _ => none
+  let mats := r.steps.filterMap fun st => match st with | .mat d a _ _ => some (d, a) | _ => none
   let whole := pre.filterMap fun st => match st with | .validate c (.list v) _ => some (c, Arg.list v) | _ => none
-  -- an allocation does not change what exists: look past it for the checks that come first
-  let pre2 := pre ++ (post.takeWhile fun st => match st with | .alloc _ _ => true | _ => !st.changes)
-  let post2 := post.dropWhile fun st => match st with | .alloc _ _ => true | _ => !st.changes
-  (post2.drop 1).all fun st => !st.refuses || lateOk pre2 fresh mats whole st
+  let rest := match post with
+    | q :: tl => if q.1.changes && !q.2 then tl else post
+    | [] => []
+  rest.all fun q => !q.1.refuses || lateOk pre fresh mats whole q.1
 
 def rowOk (r : Row) : Bool :=
   r.segs.all (fun sg => insertsOk sg.steps && dirtyOk sg.steps) &&
